@@ -128,8 +128,23 @@ func (w *World) verifyFunc(fn *ssa.Function, c *FuncContract) (rep *FuncReport) 
 	e.flush(final)
 	if !final.dead() {
 		vars := map[string]*Val{}
+		for _, p := range fn.Params {
+			if p.Name() == "result" {
+				vars["result"] = fr.vals[p]
+			}
+		}
 		e.bindResults(vars, res, fn.Signature)
 		penv := &SpecEnv{e: e, cur: final, old: fr.entry, vars: vars, pkg: funcPkgPath(fn), fr: fr}
+		// ghost assignments at exit
+		for _, gs := range c.GhostSets {
+			ts := e.evalModTarget(gs.L, penv)
+			if len(ts) != 1 || ts[0].kind != "point" {
+				panic(specErr{"ghostset target must be a single ghost location: " + gs.LSrc})
+			}
+			rv := penv.eval(gs.R)
+			cur := e.comp(final, ts[0].comp, ts[0].sort)
+			e.setComp(final, ts[0].comp, ts[0].sort, sto(cur, ts[0].addr, rv.S[0]))
+		}
 		for _, cl := range c.Ensures {
 			if cl.Free {
 				e.note("free (assumed, unverified) postcondition of %s: %s", e.fnName, cl.Src)
